@@ -28,7 +28,7 @@ def main(tier, seed):
     def one(i):
         out = []
         for b in toolrun.BACKENDS:
-            prog = tooltier.backend_program(b, seed, i, avoid_known=False, extra_profile=(dict(opt_borrowed_params=True) if i % 5 == 2 else dict(opt_slice_fields=True) if i % 5 == 3 else None))
+            prog = tooltier.backend_program(b, seed, i, avoid_known=False, extra_profile=(dict(opt_borrowed_params=True) if i % 5 == 2 else dict(opt_slice_fields=True) if i % 5 == 3 else dict(opt_named_lt=0.5, opt_slices=True) if i % 5 == 4 else None))
             if i % 6 == 1 and tooltier.add_zst_error(prog, random.Random("c15z/%s/%s/%s" % (seed, i, b))):
                 tooltier.emit_rust.assign_abi_names(prog)
             if b == "demo_gen" and i % 2 == 0:
